@@ -177,7 +177,7 @@ SPECS = {
     ensures exists|w: Seq<char>| #[trigger] reads_as(self.apex, w, *name) && r@ == esc(as_octets(w), false), // [C13:a_written_name_read_with_the_apex_as_origin_is_the_same_name]""",
         "entry": "broadcast use group_eq_axioms; proof { reveal_strlit(\"@\"); assert(\"@\"@ == seq!['@']); assert(all_ascii(seq!['@'])); lemma_full_form_reads_back(self.apex, *name); lemma_root_iff(*name); lemma_root_iff(self.apex); if is_suffix(self.apex.labels@, name.labels@) { lemma_suffix_sum(*name, self.apex); } }",
         "anchors": [
-            {"after_re": r"let labels_to_keep = name\.labels\.len\(\) - apex\.labels\.len\(\);", "proof": "proof { let k = labels_to_keep as int; assert(k > 0); assert(name.labels@.take(k)[0] == name.labels@[0]); assert(name.labels@[0].v().len() > 0); if joined(name.labels@.take(k)) != seq!['@'] { lemma_relative_form_reads_back(self.apex, *name, k); } }"},
+            {"after_re": r"let labels_to_keep = [^;]*;", "proof": "proof { let k = labels_to_keep as int; assert(k > 0); assert(name.labels@.take(k)[0] == name.labels@[0]); assert(name.labels@[0].v().len() > 0); if joined(name.labels@.take(k)) != seq!['@'] { lemma_relative_form_reads_back(self.apex, *name, k); } }"},
             {"after_re": r"serialise_octets\(", "at": "before", "proof": "proof { assert(reads_as(self.apex, domain_str@, *name)); } // [C13:a_written_name_read_with_the_apex_as_origin_is_the_same_name]"},
         ]},
     "DomainName::to_dotted_string": {"props": ["C13"],
